@@ -62,36 +62,9 @@ func VerifC11_Step() {
 	zz.Assert("C11.step.carry", c11Abs((float64(out)+c.remainder)-(rate+rem0)) <= 1e-9*(1+rate))
 }
 
-// VerifC11_PeakDominance: two ticks of the same profile at slots x1, x2 with |x1 - peak| <= |x2 - peak|, each from
-// an arbitrary remainder in [0,1): the un-floored rate at x1 is at least the one at x2 (Exp monotone), hence the
-// tick farther from the peak requests at most one more than the nearer one.
-//
-//verif:fp relaxed
-//verif:ints math
-//verif:solver z3new
-//verif:fpmono 1
-//verif:timeout 900
-//verif:tier thorough
-func VerifC11_PeakDominance() {
-	ca := c11Calculator("a", nil)
-	cb := &Calculator{dist: ca.dist, repeatWindow: ca.repeatWindow, multiplier: ca.multiplier, averageWeight: 1}
-	cb.remainder = zz.Float64("remainder.b")
-	zz.Assume(cb.remainder >= 0)
-	zz.Assume(cb.remainder < 1)
-	w := int64(ca.repeatWindow)
-	x1, x2 := zz.Int64("x1"), zz.Int64("x2")
-	zz.Assume(0 <= x1)
-	zz.Assume(x1 < w)
-	zz.Assume(0 <= x2)
-	zz.Assume(x2 < w)
-	mean := zz.Float64("mean")
-	zz.Assume(zz.RLeq(zz.RAbs(zz.RSub(float64(x1), mean)), zz.RAbs(zz.RSub(float64(x2), mean))))
-	base := int64(19000) // a fixed day (the profile is periodic: VerifC11_Step covers arbitrary instants)
-	near := ca.For(zz.Time(base*w + x1))
-	far := cb.For(zz.Time(base*w + x2))
-	zz.Cover("C11.peak.reached")
-	zz.Assert("C11.peak.no_tick_more_than_one_above_nearer", far <= near+1)
-}
+// (A thorough-tier harness "peak dominance" - the tick nearer the peak never requests fewer than one below the farther
+// one, from monotone Exp and per-operation rounding - was built and dropped: its main query is not decided by z3 5.1 or
+// cvc5 within 15 minutes, so it is not registered; see DESIGN.md section 5.)
 
 // VerifC11_Weights: with 1..3 weights the factor applied at any instant is weights[i]/averageWeight where i is the
 // index of the current repeat window within the weight cycle; the index is always in range (no panic) and the
